@@ -70,6 +70,7 @@ def locate (hunks : List Hunk) (w : Nat) : Pos :=
 inductive Bucket where
   | committed (commitLine : Nat)
   | uncommitted (workLine : Nat)
+  | both (commitLine workLine : Nat)   -- committed version credited AND working-tree version pending
   | dropped
   deriving Repr, DecidableEq
 
@@ -77,7 +78,7 @@ inductive Bucket where
 def classify (committed : List Nat) (hunks : List Hunk) (w : Nat) : Bucket :=
   match locate hunks w with
   | .unchanged c => if committed.contains c then .committed c else .dropped
-  | .replaces c => if committed.contains c then .committed c else .uncommitted w
+  | .replaces c => if committed.contains c then .both c w else .uncommitted w
   | .added => .uncommitted w
   | .invalid => .dropped
 
@@ -95,6 +96,7 @@ def stepLine (committed : List Nat) (hunks : List Hunk) (author : Str) (acc : Ac
   match classify committed hunks w with
   | .uncommitted l => { acc with unc := pushTo author l acc.unc }
   | .committed c => { acc with com := pushTo author c acc.com }
+  | .both c l => { acc with com := pushTo author c acc.com, unc := pushTo author l acc.unc }
   | .dropped => acc
 
 def stepAttr (committed : List Nat) (hunks : List Hunk) (acc : Acc) (a : LineAttr) : Acc :=
